@@ -211,8 +211,10 @@ Section T.
       destruct H1 as [H1 S1]. clearbody c1.
       destruct (negb (c_error c1 =? WBXML_OK)); auto.
       destruct (is_embedded_name name && _); auto.
-      destruct (WBXML_MAX_NESTING_DEPTH <=? N.of_nat (List.length (c_spine c1))) eqn:D; auto.
-      destruct (c_lang c1) as [l|]; auto.
+      apply flush_ok in H1. set (cf := flush_binary c1) in *. clearbody cf. unfold start_child.
+      destruct (negb (c_error cf =? WBXML_OK)); auto.
+      destruct (WBXML_MAX_NESTING_DEPTH <=? N.of_nat (List.length (c_spine cf))) eqn:D; auto.
+      destruct (c_lang cf) as [l|]; auto.
       destruct (resolve_tag l name) as [tag page].
       apply push_frame_ok; [exact H1|]. intros _. cbn. apply N.leb_gt in D. unfold WBXML_MAX_NESTING_DEPTH in D. lia.
     - (* end element *)
@@ -454,6 +456,15 @@ Section Names.
       rewrite FK, <- !app_assoc. split; [reflexivity|]. intros _. apply H. discriminate.
   Qed.
 
+  Lemma flush_error_eq c1 c :
+    c_spine c1 = c_spine c -> c_error c1 = c_error c -> c_error (flush_binary c1) = c_error (flush_binary c).
+  Proof.
+    unfold flush_binary. intros -> E. destruct (c_spine c) as [|f up]; [exact E|].
+    destruct (f_kind f) as [[p t o nm|nm] attrs [content|]|]; try exact E.
+    destruct (negb (N.land o WBXML_TAG_OPTION_BINARY =? 0)); [|exact E].
+    destruct (buffer_b64_dec content); cbn; [exact E|reflexivity].
+  Qed.
+
   (* does this start-element event add an ELEMENT node, and under which language ? *)
   Definition start_accepts (c : ctx) (name : bytes) : option lang :=
     if negb (c_error c =? WBXML_OK) then None
@@ -466,6 +477,7 @@ Section Names.
       | None => None
       | Some l =>
         if is_embedded_name name && negb (match c_spine c with [] => true | _ => false end) then None
+        else if negb (c_error (flush_binary c) =? WBXML_OK) then None      (* the parent's cached base64 text is bad *)
         else if WBXML_MAX_NESTING_DEPTH <=? N.of_nat (List.length (c_spine c)) then None
         else match c_spine c, c_root c with
              | [], Some _ => None
@@ -504,38 +516,52 @@ Section Names.
       destruct (0 <? c_skip_lvl c); [fin|].
       (* the part after the language has been settled, for any context c1 that agrees with c on the tree *)
       assert (TAIL : forall c1 l, one_root c1 -> c_lang c1 = Some l -> c_spine c1 = c_spine c -> c_root c1 = c_root c ->
+                 c_error c1 = c_error c ->
                  let r := if is_embedded_name name && negb match c_spine c1 with [] => true | _ => false end
                           then set_skip c1 (u32 (c_skip_lvl c1 + 1)) byte_index
-                          else if WBXML_MAX_NESTING_DEPTH <=? N.of_nat (List.length (c_spine c1)) then set_error c1 E_NESTING_TOO_DEEP
-                          else match c_lang c1 with
-                               | None => set_error c1 E_UB_NULL
-                               | Some l => let '(tag, page) := resolve_tag l name in
-                                           push_frame (set_page c1 page) (mk_frame (FElt tag (map (resolve_attr l) attrs) None) []) E_NOT_ENOUGH_MEMORY
-                               end in
+                          else start_child (flush_binary c1) name attrs in
                  ctx_labels r = ctx_labels c1 ++
                                 (if is_embedded_name name && negb match c_spine c with [] => true | _ => false end then []
+                                 else if negb (c_error (flush_binary c) =? WBXML_OK) then []
                                  else if WBXML_MAX_NESTING_DEPTH <=? N.of_nat (List.length (c_spine c)) then []
                                  else match c_spine c, c_root c with
                                       | [], Some _ => []
                                       | _, _ => [(fst (resolve_tag l name), map (resolve_attr l) attrs)]
                                       end) /\ one_root r).
-      { intros c1 l O1 L1 S1 R1. cbv zeta. rewrite S1, L1.
+      { intros c1 l O1 L1 S1 R1 E1. cbv zeta. rewrite S1.
         destruct (is_embedded_name name && _); [fin|].
-        destruct (WBXML_MAX_NESTING_DEPTH <=? _); [fin|].
+        destruct (flush_labels c1) as [FL FO]. specialize (FO O1).
+        destruct (flush_binary_fields c1) as (FLang & _ & _ & FR & _).
+        pose proof (flush_error_eq c1 c S1 E1) as FE.
+        pose proof (flush_binary_spine c1) as FS. rewrite S1 in FS.
+        rewrite <- FL, <- FE. set (cf := flush_binary c1) in *.
+        unfold start_child.
+        destruct (negb (c_error cf =? WBXML_OK)); [rewrite app_nil_r; split; [reflexivity|exact FO]|].
+        assert (LN : List.length (c_spine cf) = List.length (c_spine c)).
+        { destruct (c_spine c); [now rewrite FS|]. destruct FS as (f' & -> & _). reflexivity. }
+        rewrite LN.
+        destruct (WBXML_MAX_NESTING_DEPTH <=? _); [cbn [ctx_labels]; split; [|exact FO]; unfold ctx_labels; cbn; now rewrite app_nil_r|].
+        rewrite FLang, L1.
         destruct (resolve_tag l name) as [tag page] eqn:RT.
-        destruct (push_frame_labels (set_page c1 page) (FElt tag (map (resolve_attr l) attrs) None) E_NOT_ENOUGH_MEMORY O1) as [A1 A2].
-        split; [|exact A2]. rewrite A1. cbn [c_spine c_root set_page]. rewrite S1, R1. reflexivity. }
+        destruct (push_frame_labels (set_page cf page) (FElt tag (map (resolve_attr l) attrs) None) E_NOT_ENOUGH_MEMORY FO) as [A1 A2].
+        split; [|exact A2]. rewrite A1. cbn [c_spine c_root set_page]. rewrite FR, R1.
+        destruct (c_spine c); [rewrite FS|destruct FS as (f' & -> & _)]; reflexivity. }
       destruct (c_spine c) as [|f up] eqn:S; [destruct (c_lang c) as [l0|] eqn:L|].
-      + rewrite B. specialize (TAIL c l0 H L S eq_refl). cbv zeta in TAIL. rewrite ?S, ?L in *. cbn beta iota in *. rewrite ?S, ?L in *. close_tail TAIL.
+      + rewrite B. specialize (TAIL c l0 H L S eq_refl eq_refl). cbv zeta in TAIL. rewrite ?S, ?L in *. cbn beta iota in *. rewrite ?S, ?L in *. close_tail TAIL.
       + destruct (search_table main None None (Some (str name))) as [l|]; [|fin].
         cbn [c_error set_lang]. rewrite B.
         assert (O1 : one_root (set_lang c (Some l))) by exact H.
-        specialize (TAIL (set_lang c (Some l)) l O1 eq_refl S eq_refl). cbv zeta in TAIL.
+        specialize (TAIL (set_lang c (Some l)) l O1 eq_refl S eq_refl eq_refl). cbv zeta in TAIL.
         cbn [c_spine c_root c_lang set_lang c_skip_lvl] in TAIL |- *. rewrite ?S in *. cbn beta iota in *. close_tail TAIL.
       + assert (C1 : match c_lang c with Some l => c | None => c end = c) by (destruct (c_lang c); reflexivity).
         rewrite ?C1, B. destruct (c_lang c) as [l|] eqn:L.
-        * specialize (TAIL c l H L S eq_refl). cbv zeta in TAIL. rewrite ?S, ?L in *. cbn beta iota in *. close_tail TAIL.
-        * clear TAIL. rewrite ?S. brk; fin.
+        * specialize (TAIL c l H L S eq_refl eq_refl). cbv zeta in TAIL. rewrite ?S, ?L in *. cbn beta iota in *. close_tail TAIL.
+        * clear TAIL. rewrite ?S. cbn beta iota.
+          destruct (is_embedded_name name && _); [fin|].
+          destruct (flush_labels c) as [FL FO]. specialize (FO H). destruct (flush_binary_fields c) as (FLang & _).
+          rewrite app_nil_r, <- FL. set (cf := flush_binary c) in *. unfold start_child. rewrite FLang, L.
+          destruct (negb (c_error cf =? WBXML_OK)); [split; [reflexivity|exact FO]|].
+          destruct (WBXML_MAX_NESTING_DEPTH <=? _); (split; [reflexivity|exact FO]).
     - (* end element *)
       unfold on_end_element. destruct (flush_labels c) as [FL FO]. specialize (FO H).
       rewrite app_nil_r. rewrite <- FL. set (cf := flush_binary c) in *. clearbody cf. clear FL H.
@@ -658,17 +684,22 @@ End Names.
    at every event — the zipper of the model has no other notion of depth *)
 Lemma nesting_check_exact main sub input c name attrs idx :
   c_error c = WBXML_OK -> c_skip_lvl c = 0 -> c_spine c <> [] -> is_embedded_name name = false ->
+  c_error (flush_binary c) = WBXML_OK ->          (* the parent's cached base64 text, if any, decodes *)
   (c_error (step main sub input c (EvStartElement name attrs idx)) = E_NESTING_TOO_DEEP <->
    (1000 <= List.length (c_spine c))%nat).
 Proof.
-  intros E K S EM. cbn. unfold on_start_element. rewrite E, K. cbn [negb N.eqb WBXML_OK N.ltb N.compare].
+  intros E K S EM FOK. cbn. unfold on_start_element. rewrite E, K. cbn [negb N.eqb WBXML_OK N.ltb N.compare].
   destruct (c_spine c) as [|f up] eqn:SP; [now elim S|]. rewrite E. cbn [negb N.eqb WBXML_OK]. rewrite EM. cbn [andb].
-  rewrite SP.
+  pose proof (flush_binary_spine c) as FS. rewrite SP in FS. destruct FS as (f' & SP' & _).
+  destruct (flush_binary_fields c) as (FL & _).
+  set (cf := flush_binary c) in *.
+  unfold start_child. rewrite FOK. cbn [negb N.eqb WBXML_OK]. rewrite SP'.
+  change (List.length (f' :: up)) with (List.length (f :: up)).
   destruct (WBXML_MAX_NESTING_DEPTH <=? N.of_nat (List.length (f :: up))) eqn:D.
   - apply N.leb_le in D. unfold WBXML_MAX_NESTING_DEPTH in D. cbn [c_error set_error]. split; [intros _; lia|reflexivity].
   - apply N.leb_gt in D. unfold WBXML_MAX_NESTING_DEPTH in D. split; [|intros X; lia].
-    destruct (c_lang c) as [l|]; [|cbn; discriminate].
-    destruct (resolve_tag l name) as [tag page]. unfold push_frame. cbn. rewrite SP. cbn. rewrite E. discriminate.
+    destruct (c_lang cf) as [l|]; [|cbn; discriminate].
+    destruct (resolve_tag l name) as [tag page]. unfold push_frame. cbn. rewrite SP'. cbn. rewrite FOK. discriminate.
 Qed.
 
 Lemma tree_ok_eheight t r : tree_ok t -> In r (xt_roots t) -> (eheight r <= 1000)%nat.
